@@ -45,6 +45,9 @@ pub struct Program {
     pub monitor: MonitorKind,
     /// larger program, explored in the thorough tier only
     pub thorough_only: bool,
+    /// the program issues value-less upserts on a key that a racing delete / sweep may already have
+    /// removed: the documented PutOrUpdateValueMissing caller panic is then a client error, not a finding
+    pub tolerate_value_missing: bool,
 }
 
 impl Program {
@@ -62,6 +65,7 @@ impl Program {
             post: vec![],
             monitor: MonitorKind::None,
             thorough_only: false,
+            tolerate_value_missing: false,
         }
     }
     pub fn describe(&self) -> Value {
@@ -312,7 +316,18 @@ fn run_once(p: &Arc<Program>, oracle: &Oracle, col: &Collector, bound: u32, samp
         oracle(&run, &mut findings);
         for c in run.calls.iter() {
             if let Res::Panicked(m) = &c.res {
-                findings.push(Finding::new("caller-panic", caller_panic_signature(c, m), format!("{} panicked on the caller's thread: {}", c.op.short(), m)));
+                if run.program.tolerate_value_missing && matches!(c.op, Op::Upsert { value: false, .. }) && m.contains("PutOrUpdate has resulted in a put request, value must be specified") {
+                    continue;
+                }
+                // a request on a key that the sweeper / an eviction removed during the window is its own situation
+                // (the key's weight entry and its store entry do not disappear together)
+                let mut sig = caller_panic_signature(c, m);
+                if let (Op::Upsert { k, .. }, false) = (&c.op, run.program.threads.iter().flatten().any(|o| matches!(o, Op::Delete { k: d } if Some(*d) == c.op.key()))) {
+                    if run.obs_init.entry(*k).is_some() && run.obs_end.entry(*k).is_none() {
+                        sig.push_str(":key-removed-concurrently");
+                    }
+                }
+                findings.push(Finding::new("caller-panic", sig, format!("{} panicked on the caller's thread: {}", c.op.short(), m)));
             }
         }
         col.evaluated();
